@@ -18,6 +18,13 @@ def phase_functions(repo):
 
 # ------------------------------------------------------------------ P1 division
 def _const_nonzero(node):
+    # a closed arithmetic expression over integer literals (1 << 16, 2 ** 16 - 1, ...)
+    if all(isinstance(n, (ast.BinOp, ast.UnaryOp, ast.operator, ast.unaryop, ast.expr_context)) or (isinstance(n, ast.Constant) and isinstance(n.value, int)) for n in ast.walk(node)):
+        try:
+            v = eval(compile(ast.Expression(body=ast.parse(ast.unparse(node), mode="eval").body), "<const>", "eval"), {"__builtins__": {}}, {})
+            return v != 0
+        except Exception:
+            return False
     try:
         v = ast.literal_eval(node)
         return isinstance(v, (int, float)) and v != 0
@@ -93,6 +100,50 @@ def rule_P1(ck):
         ck.unknown(f"only {n} divisions with a non-constant divisor found (5 confirmed by hand)")
 
 
+def _range_checked(repo, fn, call, arg):
+    """chr(arg) is dominated by a test that confines arg to 0 .. 0x10FFFF (instead of a handler)"""
+    def value_of(node):
+        try:
+            return int(ast.literal_eval(node))
+        except Exception:
+            pass
+        if isinstance(node, ast.Name):
+            try:
+                return value_of(repo.module_assign(fn._module.name if hasattr(fn, "_module") else "types", node.id))
+            except Exception:
+                return None
+        if isinstance(node, ast.BinOp) and isinstance(node.op, (ast.Sub, ast.Add)):
+            a, b = value_of(node.left), value_of(node.right)
+            if a is not None and b is not None:
+                return a - b if isinstance(node.op, ast.Sub) else a + b
+        return None
+
+    def test_facts(t):
+        pos = set()
+        if isinstance(t, ast.Compare):
+            items = [t.left] + list(t.comparators)
+            lo = hi = False
+            for (a, op_, b) in zip(items, t.ops, items[1:]):
+                if norm_text(b) == arg and isinstance(op_, (ast.LtE, ast.Lt)) and value_of(a) is not None and value_of(a) + (1 if isinstance(op_, ast.Lt) else 0) >= 0:
+                    lo = True
+                if norm_text(a) == arg and isinstance(op_, (ast.LtE, ast.Lt)) and value_of(b) is not None and value_of(b) - (1 if isinstance(op_, ast.Lt) else 0) <= 0x10FFFF:
+                    hi = True
+                if norm_text(a) == arg and isinstance(op_, (ast.GtE, ast.Gt)) and value_of(b) is not None and value_of(b) + (1 if isinstance(op_, ast.Gt) else 0) >= 0:
+                    lo = True
+                if norm_text(b) == arg and isinstance(op_, (ast.GtE, ast.Gt)) and value_of(a) is not None and value_of(a) - (1 if isinstance(op_, ast.Gt) else 0) <= 0x10FFFF:
+                    hi = True
+            if lo:
+                pos.add("lo")
+            if hi:
+                pos.add("hi")
+        elif isinstance(t, ast.BoolOp) and isinstance(t.op, ast.And):
+            for v in t.values:
+                pos |= test_facts(v)[0]
+        return pos, set()
+    facts = flow.facts_before(fn, call, lambda x: set(), None, test_facts)
+    return facts not in (None, flow.TOP) and {"lo", "hi"} <= set(facts)
+
+
 # ------------------------------------------------------------------ P10 / P11
 def rule_P10(ck):
     """open()/open_device() with a path from program text: handlers must cover OSError and ValueError and report"""
@@ -127,6 +178,8 @@ def rule_P11(ck):
                 n += 1
                 ck.instance(("chr", q), {"site": q, "call": norm_text(c)}, fn=q)
                 ok, missing = guards.covered(c, ["ValueError", "OverflowError"])
+                if not ok and _range_checked(repo, fn, c, arg):
+                    continue
                 if not ok:
                     ck.violation(c, f"chr({arg}): {arg} is an unbounded operand value; {', '.join(missing)} is not caught here (a huge code point overflows a C int)", construct=f"chr unguarded {'+'.join(missing)}")
     if n < 1:
